@@ -247,7 +247,10 @@ class Interp:
         resolution (frames.flat_pc): rules that look for a literal among the guards then find `q` on a path guarded
         by `(not p or q)` and `p`.  Only consequences are added (at the end: positions recorded in events stay valid)."""
         from .frames import flat_pc
+        import time as _time
         for o in outs:
+            if _time.monotonic() - self._t0 > 2 * self.max_seconds:
+                raise AnalysisError(f"analysis budget exceeded ({int(2 * self.max_seconds)} s in one interpreter, {len(outs)} paths: the guards grew too large to handle)")
             if any(isinstance(g, tuple) and g and g[0] in ("and", "or") for g in o.state.pc):
                 have = list(o.state.pc)
                 for g in flat_pc(have):
@@ -509,6 +512,8 @@ class Interp:
             raise AnalysisError(f"analysis budget exceeded ({self.max_steps} abstract statements) at {ctx.loc(node)}")
         if self.steps % 64 == 0:
             import time as _time
+            from .frames import check_deadline
+            check_deadline(f"at {ctx.loc(node)}")
             if _time.monotonic() - self._t0 > self.max_seconds:
                 raise AnalysisError(f"analysis budget exceeded ({int(self.max_seconds)} s in one interpreter: the guards grew too large to handle) at {ctx.loc(node)}")
         m = getattr(self, "st_" + type(node).__name__, None)
